@@ -5,7 +5,7 @@ command-layer model (C06).
 -/
 import BV.Model.Ezsp.Rx
 import BV.Props.C06
-import BV.Proofs.Src.Proto
+import BV.Proofs.Src.ProtoFrame
 namespace BV.Props.C08
 open BV.Cmd BV.Rx BV.Codec
 
@@ -173,54 +173,8 @@ and then with exactly the decoded values -/
 theorem c08_src_no_wrong_completion (s : Proto) (d : List UInt8) (fid : Nat) (v : Vals)
     (hp : s.futs[fid]? = some .pending) (hr : (handler_call d s).2.futs[fid]? = some (.result v)) :
     ∃ sq id name tr, rxFrame s.version s.cmds d = .ok sq id name v tr ∧ s.awaiting.lookup sq = some (id, fid) ∧
-      name ≠ "invalidCommand" := by
-  have hne : ∀ {a : Vals}, (some PFut.pending : Option PFut) = some (PFut.result a) → False := by
-    intro a h; injection h with h; cases h
-  cases hc : rxFrame s.version s.cmds d with
-  | short =>
-    obtain ⟨c, e⟩ := call_short s d hc
-    rw [e, hp] at hr; exact (hne hr).elim
-  | unknown id => rw [call_unknown s d id hc, hp] at hr; exact (hne hr).elim
-  | undecodable n => rw [call_undecodable s d n hc, hp] at hr; exact (hne hr).elim
-  | ok sq id name vals tr =>
-    have hf := call_ok_futs s d sq id name vals tr hc
-    rw [hf] at hr
-    cases hl : s.awaiting.lookup sq with
-    | none => simp only [hl] at hr; rw [hp] at hr; exact (hne hr).elim
-    | some e =>
-      obtain ⟨eid, fid'⟩ := e
-      simp only [hl] at hr
-      by_cases hname : name = "invalidCommand"
-      · simp only [hname, ↓reduceIte] at hr
-        split at hr
-        · by_cases hq : fid' = fid
-          · subst hq
-            rw [List.getElem?_set] at hr
-            simp only [↓reduceIte] at hr
-            split at hr
-            · injection hr with h; cases h
-            · simp at hr
-          · rw [List.getElem?_set] at hr
-            simp only [hq, ↓reduceIte] at hr
-            rw [hp] at hr; exact (hne hr).elim
-        · rw [hp] at hr; exact (hne hr).elim
-      · simp only [hname, ↓reduceIte] at hr
-        split at hr
-        · rename_i hcond
-          simp only [Bool.and_eq_true, beq_iff_eq] at hcond
-          by_cases hq : fid' = fid
-          · subst hq
-            rw [List.getElem?_set] at hr
-            simp only [↓reduceIte] at hr
-            split at hr
-            · injection hr with h; injection h with h
-              subst h
-              exact ⟨sq, id, name, tr, rfl, by rw [hl, hcond.1], hname⟩
-            · simp at hr
-          · rw [List.getElem?_set] at hr
-            simp only [hq, ↓reduceIte] at hr
-            rw [hp] at hr; exact (hne hr).elim
-        · rw [hp] at hr; exact (hne hr).elim
+      name ≠ "invalidCommand" :=
+  result_only_own_reply s d fid v hp hr
 
 /-- **a callback is made only for a frame that decodes** (source level), exactly once, and only when no entry waits under the
 frame's sequence number -/
